@@ -283,6 +283,54 @@ pub fn featdigest(tier: Tier, seed: u64) {
         seqs += res.iter().sum::<u64>();
     }
     println!("FD-DIGEST adf-level-sequences {}", seqs);
+    // raw answers of the derived queries (facet counts, impact measures, counts and supports of the conditions) on ADFs
+    // with if-then-else shaped and with repeated conditions: no oracle, the parent compares the hashes between builds
+    {
+        use crate::src_adf::Source;
+        let sources = [Source::Tern(4, seed % 16, 16), Source::Literal3, Source::FamAllWriters(crate::fam::fam_a(2))];
+        for src in sources {
+            let mut h: u64 = 0xcbf29ce484222325;
+            let mut mix = |x: u64| {
+                h = (h ^ x).wrapping_mul(0x100000001b3);
+            };
+            for k in 0..src.size() {
+                let c = src.get(k);
+                let parser = adf_bdd::parser::AdfParser::default();
+                if parser.parse()(&c.text).is_err() {
+                    mix(0xdead);
+                    continue;
+                }
+                let r = guard(|| {
+                    let mut adf = adf_bdd::adf::Adf::from_parser(&parser);
+                    let ac = adf.ac.clone();
+                    let g = adf.grounded();
+                    let mut v: Vec<u64> = vec![];
+                    for list in [&ac, &g] {
+                        for (m, f) in adf.facet_count(list) {
+                            v.extend([m.cmodels as u64, m.models as u64, f.0 as u64, f.1 as u64]);
+                        }
+                        for i in 0..ac.len() {
+                            v.push(adf.bdd.passive_var_impact(adf_bdd::datatypes::Var(i), list) as u64);
+                            v.push(adf.bdd.active_var_impact(adf_bdd::datatypes::Var(i), list) as u64);
+                        }
+                    }
+                    for m in adf.formulacounts(false) {
+                        v.extend([m.cmodels as u64, m.models as u64]);
+                    }
+                    for t in &ac {
+                        let p = adf.bdd.paths(*t, false);
+                        v.extend([p.cmodels as u64, p.models as u64, adf.bdd.max_depth(*t) as u64, adf.bdd.var_dependencies(*t).len() as u64]);
+                    }
+                    v
+                });
+                match r {
+                    Ok(v) => v.into_iter().for_each(&mut mix),
+                    Err(_) => mix(0xbad),
+                }
+            }
+            println!("FD-RAW {} {:016x}", src.name().split(':').next().unwrap_or("?").replace(' ', "_"), h);
+        }
+    }
     let total = run.violations_so_far();
     for v in run.take_violations().into_iter().take(60) {
         println!("FD-VIOLATION {}", json!({"kind": v.kind, "msg": v.msg, "case": v.case, "features": feats}));
@@ -302,6 +350,7 @@ pub fn run_c12(run: &Run) {
     let mut all: Vec<(String, String)> = vec![("(default)".to_string(), me.to_string_lossy().to_string())];
     all.extend(bins.iter().map(|(k, v)| (if k.is_empty() { "(none)".to_string() } else { k.clone() }, v.clone())));
     let mut reference: Option<Vec<String>> = None;
+    let mut reference_raw: Option<Vec<String>> = None;
     let mut sections = 0u64;
     for (fs, exe) in &all {
         let t0 = std::time::Instant::now();
@@ -322,6 +371,21 @@ pub fn run_c12(run: &Run) {
             Some(r) => {
                 if comparable(r) != comparable(&digests) {
                     run.violation("feature-build:coverage-differs", format!("features [{}] ran {:?}, the default build {:?}", fs, digests, r), json!({"features": fs, "inner_property": "none", "inner_case": {}}));
+                }
+            }
+        }
+        // raw answers of derived queries: every build must print what the default build prints
+        let raws: Vec<String> = so.lines().filter(|l| l.starts_with("FD-RAW")).map(String::from).collect();
+        match &reference_raw {
+            None => reference_raw = Some(raws.clone()),
+            Some(r) => {
+                for (a, b) in r.iter().zip(raws.iter()) {
+                    if a != b {
+                        run.violation("feature-build:raw-answers-differ", format!("features [{}]: the raw answers of facet_count / impact measures / counts / supports hash to {:?}, under the default build to {:?}", fs, b, a), json!({"features": fs, "inner_property": "none", "inner_case": {}}));
+                    }
+                }
+                if r.len() != raws.len() {
+                    run.violation("feature-build:raw-answers-differ", format!("features [{}]: {} raw-answer sections instead of {}", fs, raws.len(), r.len()), json!({"features": fs, "inner_property": "none", "inner_case": {}}));
                 }
             }
         }
